@@ -7,7 +7,7 @@
      <n> FAIL <property> <sig> <detail>          (zero or more per line)
   Core Lean only: no Mathlib anywhere below this file.
 -/
-import SF.Ops
+import SF.Ops.Main
 
 open SF
 
